@@ -35,9 +35,10 @@ ASSUMPTIONS = [
     "XML decoding is outside the model: its input is the decoded Project record (the decoding glue is exercised by running every "
     "lineage a second time through XML text and the package's decoder and comparing)",
     "identity with the real Maven binary is tied only through the transcribed specification",
-    "C15_refines is proved in pieces (property priority, selection = first declaration wins when no POM repeats an identity, "
-    "injection only where empty, import cap); the composition over whole lineages (interpolation between merge and dedupe, "
-    "import order) is decided by the direct oracle Go vs specification, not a theorem",
+    "C15_refines is proved in pieces (property priority; selection = first declaration wins exactly when no POM repeats an "
+    "identity; injection only where empty; the import queue = depth-first first-wins when no import coordinates repeat, all "
+    "are fetchable poms and fewer than MaxImports); the composition over whole lineages (interpolation sits between merge and "
+    "dedupe in the Go code, Maven selects on the written text) is decided by the direct oracle Go vs specification, not a theorem",
     "OS family is a single value of the settings (Maven derives several families from os.name)",
 ]
 
@@ -48,7 +49,8 @@ MANIFEST = dict(
           "tables and strings: interpolation terminates within the explicit bound S(size dict), never panics, leaves absent and "
           "cyclic placeholders verbatim with the flag false; and, against an independent declarative specification of Maven's "
           "rules, property lookup priority, first-declaration-wins selection (equal to Maven's exactly when no POM repeats an "
-          "identity), fill-in only where empty, import cap. The unrestricted refinement is REFUTED by six witness lineages "
+          "identity), fill-in only where empty, the import queue as depth-first first-wins under MaxImports. The unrestricted "
+          "refinement is REFUTED by six witness lineages "
           "(known findings). Model tied to the code by differential execution; the property itself is decided on every generated "
           "lineage by comparing the Go result with the extracted specification."),
     note=("Trusted: Coq 8.16.1 kernel (+vm_compute), translator gotables, extraction and driver.ml, the Go harness (its mergeParents "
@@ -87,6 +89,53 @@ def proj_result(r):
     return (r[0].decode(),) + tuple(r[1:])
 
 
+class Stop(Exception):
+    """the run cannot go on (the implementation process died); a violation has been recorded"""
+
+
+def isolate_crash(ctx, kind, args, err):
+    """the implementation process died on this batch (a Go fatal error such as stack exhaustion cannot be
+    recovered inside the handler): bisect to one input that kills it and report it as the failing input"""
+    lo = list(args)
+    while len(lo) > 1:
+        half = lo[:len(lo) // 2]
+        try:
+            ctx.impl(kind, half, shards=1)
+            lo = lo[len(lo) // 2:]
+        except lib.BuildError:
+            lo = half
+    died = True
+    try:
+        ctx.impl(kind, lo, shards=1)
+        died = False
+    except lib.BuildError:
+        pass
+    if died:
+        ctx.violation("the implementation does not return on this input: the process dies with a fatal error "
+                      "(unbounded recursion / stack exhaustion)", {"kind": kind, "case": lo[0]},
+                      observed=err.log[-400:], required="a result for every input")
+        raise Stop()
+    raise err
+
+
+def impl_safe(ctx, kind, args):
+    try:
+        return ctx.impl(kind, args)
+    except lib.BuildError as e:
+        if "implrun failed" in e.stage:
+            isolate_crash(ctx, kind, args, e)
+        raise
+
+
+def correspond_safe(ctx, kind, args, label=None):
+    try:
+        return ctx.correspond(kind, args, label=label)
+    except lib.BuildError as e:
+        if "implrun failed" in e.stage:
+            isolate_crash(ctx, kind, args, e)
+        raise
+
+
 def fill_tables(ctx, cases):
     pairs = sorted(set().union(*[G.jdk_pairs(c) for c in cases])) if cases else []
     tab = {}
@@ -102,6 +151,18 @@ def show(x):
     return lib.jsonable(x)
 
 
+def n_ancestors(c):
+    bykey = {}
+    for p in c[1][1:]:
+        bykey.setdefault(G.declared_key(p), p)
+    n, cur, seen = 0, c[1][0], set()
+    while tuple(cur[3]) in bykey and tuple(cur[3]) not in seen:
+        seen.add(tuple(cur[3]))
+        cur = bykey[tuple(cur[3])]
+        n += 1
+    return n
+
+
 def oracle(ctx, cases, tab, impl, model, spec, label):
     """the property itself: Go result vs Maven specification on every lineage the specification accepts"""
     stats = collections.Counter()
@@ -109,7 +170,8 @@ def oracle(ctx, cases, tab, impl, model, spec, label):
         a = sx(c)
         ps = proj_result(parse_sx(s))
         pb = proj_result(parse_sx(b))
-        ctx.count(label + ":ancestors=%d" % max(0, sum(1 for p in c[1] if p[0] in (b"p", b"") and p[1].startswith(b"par"))))
+        ctx.count(label + ":ancestors=%d" % n_ancestors(c))
+        ctx.count(label + ":other_poms(boms and their parents)=%d" % (len(c[1]) - 1 - n_ancestors(c)))
         if ps[0] == "unsupported":
             stats["outside:%d" % ps[1]] += 1
             ctx.count(label + ":outside_spec_subset(reason %d)" % ps[1])
@@ -133,6 +195,60 @@ def oracle(ctx, cases, tab, impl, model, spec, label):
                       {"kind": "pom", "case": a, "known_constructions_present": sorted(tr)},
                       observed=show(pb), required=show(ps))
     return stats
+
+
+def copy_case(c):
+    def cp(x):
+        return [cp(e) for e in x] if isinstance(x, list) else x
+    return cp(c)
+
+
+def deletions(case):
+    """every case obtained by deleting one element (a POM, a property, an entry, a profile)"""
+    out = []
+    poms = case[1]
+    for i in range(1, len(poms)):
+        c = copy_case(case)
+        del c[1][i]
+        out.append(c)
+    for i, p in enumerate(poms):
+        for f in (5, 6, 7, 8):
+            for j in range(len(p[f])):
+                c = copy_case(case)
+                del c[1][i][f][j]
+                out.append(c)
+        for k, pf in enumerate(p[8]):
+            for f in (2, 3, 4):
+                for j in range(len(pf[f])):
+                    c = copy_case(case)
+                    del c[1][i][8][k][f][j]
+                    out.append(c)
+    return out
+
+
+def shrink(ctx, case, rounds=60):
+    """delta debugging on the structured lineage: delete elements while the Go result still differs from
+    the specification's (which must still accept the lineage)"""
+    def bad(cands):
+        args = [sx(c) for c in cands]
+        impl = ctx.impl("pom", args, shards=1)
+        spec = ctx.model("pomspec", args, shards=1)
+        res = []
+        for b, s_ in zip(impl, spec):
+            ps = proj_result(parse_sx(s_))
+            res.append(ps[0] == "ok" and ps != proj_result(parse_sx(b)))
+        return res
+    cur = case
+    for _ in range(rounds):
+        cands = deletions(cur)
+        if not cands:
+            break
+        flags = bad(cands)
+        nxt = [c for c, f in zip(cands, flags) if f]
+        if not nxt:
+            break
+        cur = min(nxt, key=lambda c: len(sx(c)))
+    return cur
 
 
 def reference_available():
@@ -220,51 +336,8 @@ def replay_known(ctx):
             ctx.count("known_witness_confirmed")
 
 
-def run(ctx):
+def interp_stream(ctx):
     rng = ctx.rng
-    replay_known(ctx)
-
-    # ---- replay of earlier failing inputs first
-    extra = []
-    if ctx.replay:
-        for v in ctx.replay.get("violations", []):
-            inp = v.get("input")
-            if isinstance(inp, dict) and inp.get("kind") == "pom":
-                extra.append(parse_sx(inp["case"]))
-
-    # ---- lineages within the quantifier
-    n = ctx.scale(2000, 40000)
-    gen = G.LineageGen(rng)
-    cases = extra + [gen.lineage() for _ in range(n)]
-    tab = fill_tables(ctx, cases)
-    args = [sx(c) for c in cases]
-    impl, model = ctx.correspond("pom", args)
-    implx = ctx.impl("pomxml", args)
-    spec = ctx.model("pomspec", args)
-    for a, b, bx in zip(args, impl, implx):
-        if b != bx:
-            ctx.violation("decoding the POMs from XML gives another effective POM than the same projects built as values",
-                          {"kind": "pom", "case": a}, observed=bx, required=b)
-    st = oracle(ctx, cases, tab, impl, model, spec, "lineage")
-    ctx.extra["oracle"] = dict(st)
-    for c, b in zip(cases[:2], impl[:2]):
-        ctx.sample({"kind": "pom", "case": sx(c)[:600], "impl": b[:300]})
-    if st["spec_ok"] < 0.6 * len(cases):
-        raise lib.BuildError("generator degenerate", "only %d of %d lineages are inside the specification's subset" % (st["spec_ok"], len(cases)))
-
-    # ---- the way util/resolve/maven.go calls the pipeline: no JDK, no OS (default profiles only). Correspondence only.
-    n2 = ctx.scale(300, 6000)
-    gen2 = G.LineageGen(rng, envs=[[b"", b"", b"", b"", b""], [b"", b"linux", b"", b"", b""]])
-    cases2 = [gen2.lineage() for _ in range(n2)]
-    fill_tables(ctx, cases2)
-    ctx.correspond("pom", [sx(c) for c in cases2], label="pom(no environment)")
-
-    # ---- lineages with missing POMs (a missing parent is an error, a missing import is skipped). Correspondence only.
-    gen3 = G.LineageGen(rng, knobs=G.Knobs(missing_bom=1.0))
-    cases3 = [gen3.lineage() for _ in range(ctx.scale(200, 4000))]
-    fill_tables(ctx, cases3)
-    ctx.correspond("pom", [sx(c) for c in cases3], label="pom(missing POM)")
-
     # ---- interpolation of arbitrary property tables: terminates, no panic; model = implementation
     nt = ctx.scale(5000, 100000)
     tcases = [G.gen_table_case(rng) for _ in range(nt)]
@@ -272,7 +345,7 @@ def run(ctx):
         for _ in range(4):
             tcases.append(G.gen_chain_case(rng, depth))
     targs = [sx(c) for c in tcases]
-    ti, tm = ctx.correspond("interp", targs)
+    ti, tm = correspond_safe(ctx, "interp", targs)
     flags = collections.Counter()
     for c, a, line in zip(tcases, targs, ti):
         r = parse_sx(line)
@@ -293,6 +366,76 @@ def run(ctx):
     ctx.count("interp:resolved", flags["resolved"])
     ctx.count("interp:unresolved", flags["unresolved"])
     ctx.sample({"kind": "interp", "case": targs[-1][:300], "impl": ti[-1][:200]})
+
+
+def run(ctx):
+    try:
+        run_all(ctx)
+    except Stop:
+        pass
+
+
+def run_all(ctx):
+    rng = ctx.rng
+    # the termination clause first: a property table on which the implementation dies must be reported as such
+    interp_stream(ctx)
+    replay_known(ctx)
+
+    # ---- replay of earlier failing inputs first
+    extra = []
+    if ctx.replay:
+        for v in ctx.replay.get("violations", []):
+            inp = v.get("input")
+            if isinstance(inp, dict) and inp.get("kind") == "pom":
+                extra.append(parse_sx(inp["case"]))
+
+    # ---- lineages within the quantifier
+    n = ctx.scale(2000, 40000)
+    gen = G.LineageGen(rng)
+    cases = extra + [gen.lineage() for _ in range(n)]
+    tab = fill_tables(ctx, cases)
+    args = [sx(c) for c in cases]
+    impl, model = correspond_safe(ctx, "pom", args)
+    implx = impl_safe(ctx, "pomxml", args)
+    spec = ctx.model("pomspec", args)
+    for a, b, bx in zip(args, impl, implx):
+        if b != bx:
+            ctx.violation("decoding the POMs from XML gives another effective POM than the same projects built as values",
+                          {"kind": "pom", "case": a}, observed=bx, required=b)
+    st = oracle(ctx, cases, tab, impl, model, spec, "lineage")
+    ctx.extra["oracle"] = dict(st)
+    # smallest failing lineage first, minimised
+    pv = [v for v in ctx.violations if isinstance(v["input"], dict) and v["input"].get("kind") == "pom" and "required" in v and v["required"]]
+    if pv:
+        rest = [v for v in ctx.violations if v not in pv]
+        pv.sort(key=lambda v: (len(v["input"].get("known_constructions_present", [])) > 0, len(v["input"]["case"])))
+        first = pv[0]
+        try:
+            small = shrink(ctx, parse_sx(first["input"]["case"]))
+            a = sx(small)
+            first["input"]["minimised_case"] = a
+            first["input"]["minimised_go"] = ctx.impl("pom", [a], shards=1)[0]
+            first["input"]["minimised_maven_specification"] = ctx.model("pomspec", [a], shards=1)[0]
+        except Exception as e:      # the unminimised input is still a valid failing input
+            first["input"]["minimised_case"] = "shrinking failed: %r" % (e,)
+        ctx.violations[:] = pv + rest
+    for c, b in zip(cases[:2], impl[:2]):
+        ctx.sample({"kind": "pom", "case": sx(c)[:600], "impl": b[:300]})
+    if st["spec_ok"] < 0.6 * len(cases):
+        raise lib.BuildError("generator degenerate", "only %d of %d lineages are inside the specification's subset" % (st["spec_ok"], len(cases)))
+
+    # ---- the way util/resolve/maven.go calls the pipeline: no JDK, no OS (default profiles only). Correspondence only.
+    n2 = ctx.scale(300, 6000)
+    gen2 = G.LineageGen(rng, envs=[[b"", b"", b"", b"", b""], [b"", b"linux", b"", b"", b""]])
+    cases2 = [gen2.lineage() for _ in range(n2)]
+    fill_tables(ctx, cases2)
+    ctx.correspond("pom", [sx(c) for c in cases2], label="pom(no environment)")
+
+    # ---- lineages with missing POMs (a missing parent is an error, a missing import is skipped). Correspondence only.
+    gen3 = G.LineageGen(rng, knobs=G.Knobs(missing_bom=1.0))
+    cases3 = [gen3.lineage() for _ in range(ctx.scale(200, 4000))]
+    fill_tables(ctx, cases3)
+    ctx.correspond("pom", [sx(c) for c in cases3], label="pom(missing POM)")
 
     # ---- optional: the specification against the installed Maven model builder
     if reference_available():
@@ -316,7 +459,11 @@ def oracle_only(ctx):
     """when the model cannot be built: the termination watchdog still runs on the implementation"""
     rng = ctx.rng
     tcases = [G.gen_table_case(rng) for _ in range(2000)] + [G.gen_chain_case(rng, 1000) for _ in range(4)]
-    for c, line in zip(tcases, ctx.impl("interp", [sx(c) for c in tcases])):
+    try:
+        out = impl_safe(ctx, "interp", [sx(c) for c in tcases])
+    except (Stop, lib.BuildError):
+        return
+    for c, line in zip(tcases, out):
         r = parse_sx(line)
         if r[0] in (b"hang", b"panic", b"err"):
             ctx.violation("interpolation does not terminate normally on a property table", {"kind": "interp", "case": sx(c)},
